@@ -9,5 +9,6 @@ CONSTRAINT DepthBound
 INVARIANT NoViolation
 INVARIANT Bound
 INVARIANT DequeIsWindow
+INVARIANT PopOldIsSelect
 PROPERTY CapacityReturns
 CHECK_DEADLOCK FALSE
